@@ -38,6 +38,21 @@ def run(tier, seed, args):
     for i, c in enumerate(enc):
         img, scene = materialize.build_file([c], v=i % 6, guid=f"enc-{i}")
         ps.append({"name": "enc:" + c["name"], "image_bytes": list(img), "steps": [{"op": "new"}, {"op": "pc", "pose_matrix": None}], "opts": opts})
+    # damaged variants of the multi-packet file: where the raw iterator fails, the simple iterator fails after the same points
+    for mp in ([p] for p in ps if p["name"] in ("view_multi_packet", "view_multi_packet_wide")):
+        pp = os.path.join(wd, "mp.ndjson"); tp = os.path.join(wd, "mp.trace")
+        json.dump(dict(mp[0], read=[]), open(pp, "w"))
+        vlib.harness(exe, ["e57-run", "--progs", pp, "--out", tp])
+        img = None
+        for line in open(tp):
+            if '"ev":"final"' in line:
+                img = bytes(json.loads(line)["bytes"])
+        os.remove(tp)
+        if img:
+            npages = len(img) // 1024
+            for k in sorted({1, npages // 3, npages // 2, npages // 2 + 3, (2 * npages) // 3, npages - 3}):
+                b = bytearray(img); b[k * 1024 + 300] ^= 0x40
+                ps.append({"name": mp[0]["name"] + f"_damaged_page{k}", "image_bytes": list(b), "steps": mp[0]["steps"], "opts": [[True, True, False, True, True, True], [False] * 6]})
     n, npts = run_simple(v, wd, exe, ps, "c05", ("C05",))
     log(f"[C05] {len(ps)} files, {n} iterations (option vectors x point clouds), {npts} points compared with the documented view")
     v.add(states=v.cov.get("trace_events", 0), transitions=v.cov.get("trace_events", 0), exhaustive=False,
